@@ -1120,3 +1120,9 @@ def replay(witness):
     col = _Collect()
     check_model(col, inp['text'], model, inp.get('generated_only', False), as_lines=inp.get('as_lines', False))
     return witness['oracle'] in col.witnesses
+
+
+# extension: further model code, theorems and streams (DESIGN 13.7)
+from props import c07x as _ext  # noqa: E402  pylint: disable=wrong-import-position
+_ext.EXTRA_ROOTS = ['Drv.C07X']
+fw.attach_extension(globals(), _ext)
